@@ -103,6 +103,13 @@ def _check_raises(p, res, rname, entries, allowed, skip_guarded=True):
             if skip_guarded and _guarded_by_throws(p, f, st):
                 res.ok('%s: raise under options[throws] (call sites checked by EXC-THROWS)' % f.short)
                 continue
+            if f.qualname == 'emmet.abbreviation.stringify.stringify' and _enclosing_test_contains(p, f, st, 'not visitor'):
+                from ..report import RuleResult
+                tmp = RuleResult('EXC-VISITOR')
+                exc_visitor(p, tmp)
+                if not tmp.findings:
+                    res.ok('%s: `%s` is dead: EXC-VISITOR shows every token class has a visitor' % (f.short, src_of(st)))
+                    continue
             kind, name = raised_class(p, f, st)
             names = name if isinstance(name, tuple) else (name,)
             bad = kind == 'unknown' or any(n not in allowed for n in names)
@@ -534,6 +541,12 @@ def exc_numconv(p, res):
             # (b) regex group
             g = arg
             sliced = 0
+            empty_ok = False
+            if isinstance(g, ast.BoolOp) and isinstance(g.op, ast.Or) and len(g.values) == 2:
+                fb = p.try_const(f, g.values[1])
+                if isinstance(fb, int) or (isinstance(fb, str) and fb.isdigit()):
+                    empty_ok = True      # `text or 0`: an empty run falls back to a number
+                    g = g.values[0]
             if isinstance(g, ast.Subscript) and isinstance(g.slice, ast.Slice) and g.slice.upper is None and g.slice.step is None:
                 lo = p.try_const(f, g.slice.lower) if g.slice.lower is not None else 0
                 if isinstance(lo, int):
@@ -564,7 +577,7 @@ def exc_numconv(p, res):
                     problems = []
                     if optional and not guarded:
                         problems.append('group %d may be absent (None) and is not guarded' % gno)
-                    if lo2 == 0 and not (sliced == 0 and guarded):
+                    if lo2 == 0 and not (sliced == 0 and guarded) and not empty_ok:
                         problems.append('text may be empty after [%d:] (group %d matches %r)' % (sliced, gno, pat))
                     if lo2 == 0 and sliced == 0 and guarded:
                         pass
